@@ -59,6 +59,38 @@ theorem sealIf_okAt (b : Bool) (par : Option Nat) (p : List Key) (t : Tree) (h :
   · exact seal_okAt true par p t h
   · exact h
 
+theorem adopt_okAt (a b : Bool) (par : Option Nat) (p : List Key) (t : Tree) (h : t.okAt par p = true) :
+    (adoptPartial a b t).okAt par p = true := by
+  cases t with
+  | leaf x => simp [adoptPartial, Tree.okAt]
+  | node m its =>
+    simp only [adoptPartial]
+    split
+    · rw [okAt_node] at h ⊢; exact h
+    · exact h
+
+theorem adoptItems_ok (b : Bool) (h : Nat) (p : List Key) (its : Items) (hok : okItems h p its = true) :
+    okItems h p (its.map (fun kv => (kv.1, adoptPartial true b kv.2))) = true := by
+  rw [okItems_mem] at hok ⊢
+  intro kv hkv
+  simp only [List.mem_map] at hkv
+  obtain ⟨kv0, h0, rfl⟩ := hkv
+  simp only
+  rw [okSub_iff_okAt]
+  apply adopt_okAt
+  rw [← okSub_iff_okAt]
+  exact hok kv0 h0
+
+theorem adopt_ids (a b : Bool) (t : Tree) : (adoptPartial a b t).ids = t.ids := by
+  cases t with
+  | leaf x => rfl
+  | node m its => simp only [adoptPartial]; split <;> rfl
+
+theorem adoptItems_ids (b : Bool) : (its : Items) →
+    idsItems (its.map (fun kv => (kv.1, adoptPartial true b kv.2))) = idsItems its
+  | [] => rfl
+  | (k, c) :: r => by simp [idsItems, adopt_ids, adoptItems_ids b r]
+
 /-! ### the clone is a well-formed tree at its destination -/
 
 mutual
@@ -82,7 +114,7 @@ mutual
         obtain ⟨kv1, h1, h2⟩ := renumberFrom_vals 0 _ kv hkv
         exact ⟨kv1, (List.mem_filter.mp h1).1, h2⟩
       | dict => exact ih
-      | obj c => exact ih
+      | obj c => exact adoptItems_ok _ _ p _ ih
   theorem cloneItems_ok (cfg : Cfg) (deep : Bool) (next : Nat) (h : Nat) (p : List Key) :
       (its : Items) → okItems h p (cloneItems cfg deep next h p its).1 = true
     | [] => by simp [cloneItems, okItems]
@@ -174,7 +206,7 @@ mutual
         simp only [Tree.ids]
         exact fin _ (by simp [setPathItems_ids, renumber, renumberFrom_ids, filterMissing_ids])
       | dict => simp only [Tree.ids]; exact fin _ rfl
-      | obj c => simp only [Tree.ids]; exact fin _ rfl
+      | obj c => simp only [Tree.ids]; exact fin _ (adoptItems_ids _ _)
   theorem cloneItems_fresh (cfg : Cfg) (deep : Bool) (next : Nat) (h : Nat) (p : List Key) :
       (its : Items) → next ≤ (cloneItems cfg deep next h p its).2 ∧
         ∀ i ∈ idsItems (cloneItems cfg deep next h p its).1, next ≤ i ∧ i < (cloneItems cfg deep next h p its).2
